@@ -168,3 +168,11 @@ Proof.
   intros HL HR. rewrite (mergejoin_left_rows lk rk nl nr L R HL HR), hashjoin_left_rows.
   eapply Permutation_trans; [apply left_rows_split|]. apply Permutation_app_tail. apply hashjoin_inner_rows.
 Qed.
+
+(** the FULL OUTER hash join = the RIGHT OUTER hash join followed by the left rows without a partner *)
+Lemma hashjoin_full_as_right_plus_pads lk rk nl nr L R :
+  x_hashjoin JFull lk rk nl nr L R =
+  x_hashjoin JRight lk rk nl nr L R ++
+  map (fun l => l ++ nulls nr)
+      (filter (fun l => has_null (keys_of lk l) || negb (existsb (fun r => row_eqb (keys_of lk l) (keys_of rk r)) (concat R))) (concat L)).
+Proof. rewrite hashjoin_full_rows, hashjoin_right_rows. reflexivity. Qed.
